@@ -2,6 +2,7 @@ import Cardutil.SrcTie.LoopRoundTrip
 import Cardutil.SrcTie.Field
 import Cardutil.Lemmas.IsoField
 import Cardutil.Props.C01
+import Cardutil.Lemmas.IsoSafe
 /-
   Source tie for the WHOLE element decoder `iso8583._iso8583_to_field` (C01, C07, C16): framing, text decoding (not for
   the binary ICC element), the card-number processors, the typed conversion, and the derived entries (PDS sub-elements,
@@ -121,6 +122,23 @@ theorem text_element_recovered (env : Env) (henv : EnvOK env) (hk : env.classes 
       simp only []
       rw [← hpl, List.drop_left' rfl, ← hlen, List.take_left' rfl, hdecO, catch_ok, bind_ok_eq]
       simp [Nat.add_comm]
+
+/-- C07 for the whole element decoder as translated, on a TEXT element and ANY bytes: it returns a value or raises the
+    library's data error — a length prefix that does not decode, is no number or is negative, and text bytes that do not
+    decode are all the data error; nothing else escapes and nothing diverges -/
+theorem C07_source_text_element_total (env : Env) (hk : env.classes = Gen.intClasses) (fuel : Nat) (X : De43) (bit : Int)
+    (f : FieldCfg) (data : Bytes) :
+    (∃ r, Src._iso8583_to_field_whole fuel X bit (toRt f) data (decoderOf env) = .ok r) ∨
+      Src._iso8583_to_field_whole fuel X bit (toRt f) data (decoderOf env) = .dataError := by
+  rw [whole_text fuel X bit (toRt f) data (decoderOf env) rfl rfl, field_frame_eq env f data hk]
+  rcases Iso.safe_cases (Iso.fieldLength_safe env f data) with ⟨n, hn⟩ | hn
+  · rw [hn, bind_ok_eq, bind_ok_eq]
+    simp only []
+    unfold decoderOf
+    cases env.codec.decode (List.take n (List.drop f.prefixLen data)) with
+    | some t => exact .inl ⟨_, rfl⟩
+    | none => exact .inr rfl
+  · rw [hn]; exact .inr rfl
 
 /-! ### whole messages of text elements: nothing is left as a parameter but the codec tables -/
 
